@@ -1,5 +1,6 @@
 import UPVerif.Core.Sexp
 import UPVerif.Drv.C33
+import UPVerif.Drv.Den
 /-!
 Line-protocol driver.  One case per input line `(<Prop> <n> <payload>)`, one answer per output line
 `(<n> <answer>)`.  Never defaults: anything unparsable is answered `bad-case`.
@@ -7,7 +8,9 @@ Line-protocol driver.  One case per input line `(<Prop> <n> <payload>)`, one ans
 open UPVerif
 
 def handlers : List (String × (Sexp → Sexp)) := [
-  ("C33", Drv.C33.handle)
+  ("C33", Drv.C33.handle),
+  ("ECHO", Drv.Den.handleEcho),
+  ("DEN", Drv.Den.handleDen)
 ]
 
 def answer (line : String) : String :=
